@@ -196,9 +196,12 @@ CHECKS['C07'] = dict(
           'atleast_2d, orientation fix-up) is the identity on every non-empty result - single row, single column, '
           'single element and square - hence eager = lazy; negative, out-of-range, empty, wrongly typed and '
           'unknown-label requests are refused with the stated error; two list selectors on the N-D path are refused '
-          'with NotImplementedError. PARTIAL: "N-D result = ordinary indexing of the N-D form" is definitional in the '
-          'model (per-axis selection over the C-order view) and its link to main[r,c] goes through the C01 coordinate '
-          'map (in progress). Correspondence: all four modes (ndim_form x lazy), file-order and sorted wrappers, slices '
+          'with NotImplementedError; slice2D_elements - element (i, j) of an accepted 2-D slice is main[rows[i], cols[j]] '
+          'with rows / cols coming from per-dimension selections that are the whole range or the accepted expansion of '
+          'the selector (posSpecSlices_selected); sliceND_elements - an accepted N-D slice holds, in C order, the '
+          'view\'s element at every combination of the kept per-axis indices (integer axes dropped from the shape); the '
+          'view itself is the coordinate map by C01. CPython\'s slice.indices arithmetic is an executable definition '
+          'compared with Python on every run, not re-derived. Correspondence: all four modes (ndim_form x lazy), file-order and sorted wrappers, slices '
           'with negative bounds/steps, lists/tuples/arrays, forced square and single-row results, malformed stream; '
           'oracle = np.take / np.ix_ on arrays read back independently.'),
     note=COMMON_NOTE + 'dask fancy-indexing semantics assumed by the N-D model; tuples are accepted by the 2-D path only.',
@@ -240,9 +243,10 @@ CHECKS['C12'] = dict(
           'dimension with its size, one cell per combination of remaining coordinates, and every cell collects exactly '
           'prod(reduced sizes) source elements; the in-memory reduction refuses empty / unknown dimension lists; rebuilt '
           'ancillaries carry exactly the labels/units of the remaining dimensions in order (one index and one value row '
-          'each) or the one-point placeholder when a whole side is reduced. PARTIAL: "each cell holds exactly the source '
-          'elements sharing its remaining coordinates" is the definition of the model\'s groups (enumeration of the '
-          'Cartesian product); its link to main[r,c] goes through C01 (in progress). The model returns the GROUP of every '
+          'each) or the one-point placeholder when a whole side is reduced; cell_exact - for every view, axis set and '
+          'in-bounds index, the cell at the kept coordinates is the list of view elements over ALL indices of the reduced '
+          'axes, contains view[idx], and every member has those kept coordinates (the view is the coordinate map by '
+          'C01). The arithmetic of the reduction function is numpy\'s and is not modelled. The model returns the GROUP of every '
           'output cell and the harness applies the reduction function, so float rounding never enters the comparison. '
           'Correspondence/oracle: in-memory result vs group-by of the raw data for mean/sum/max/min/std; with '
           'to_hdf5=True the written file is read back with raw h5py and every element compared by coordinates, or the '
